@@ -30,6 +30,8 @@ def run(ctx):
         elif r < 0.6:
             comps = g.gen_mixed_comps(rng)
         cases.append((rng.choice(OFFS), hx(g.gen_key(rng)), comps))
+    for comps in g.threshold_comps(rng):
+        cases.append((rng.choice(OFFS), hx(g.gen_key(rng)), comps))
     nontriv = lambda line, res: not line.endswith(" -")
     ctx.correspond([f"bf3.tobin {o} {k} {c}" for o, k, c in cases], "tobin", nontriv)
     ctx.check_props([f"prop.c03 {o} {k} {c}" for o, k, c in cases], "prop.c03")
